@@ -177,26 +177,44 @@ def depth(tree):
     return d
 
 
-def f55_shape(tree):
-    """class nested_symbol_across_if: an #if with a symbol declaration inside is followed, later in the program
-    text, by a symbol declared at a nesting level > 0"""
-    seen = [False]
+def replay_select(tree, decisions):
+    """the selected world as [(node, arm path)], replaying the arm `select` took at each #if it met (pre-order string of
+    t/f/n printed by the spec runner); the arm path is the chain of (if-node identity, arm) enclosing the node"""
+    out, pos = [], [0]
 
-    def has_sym(nodes):
-        return any(n[0] in 'LK' for n in walk(nodes))
-
-    def go(nodes):
+    def go(nodes, path):
         for n in nodes:
-            if n[0] in 'LK' and n[1] > 0 and seen[0]:
-                return True
             if n[0] == 'I':
-                inner = has_sym(n[2]) or has_sym(n[3] or [])
-                if go(n[2]) or (n[3] is not None and go(n[3])):
+                d = decisions[pos[0]]
+                pos[0] += 1
+                if d == 't':
+                    go(n[2], path + ((id(n), 't'),))
+                elif d == 'f' and n[3] is not None:
+                    go(n[3], path + ((id(n), 'f'),))
+            else:
+                out.append((n, path))
+    go(tree, ())
+    if pos[0] != len(decisions):
+        raise ValueError("decision string not consumed")
+    return out
+
+
+def f55_exact(world):
+    """class nested_symbol_across_if, exactly: in the selected world a symbol N at level k > 0 whose lexical parent chain
+    (the symbols giving it its context at levels 0..k-1) contains a symbol declared inside an #if arm that does not
+    enclose N, i.e. N FOLLOWS the #if block that declares (part of) its parent.  A nested symbol inside an arm whose
+    parents all precede the #if (their arm paths are prefixes of N's) is NOT in the class."""
+    chain = []
+    for n, path in world:
+        if n[0] in 'LK':
+            lvl = n[1]
+            if lvl > len(chain):
+                return False
+            for (_, pp) in chain[:lvl]:
+                if pp != path[:len(pp)]:
                     return True
-                if inner:
-                    seen[0] = True
-        return False
-    return go(tree)
+            chain = chain[:lvl] + [(n, path)]
+    return False
 
 
 def nontrivial(tree):
@@ -405,7 +423,113 @@ def gen_defines(rng, tree, nested):
     return out
 
 
+def gen_inside_case(rng):
+    """children declared INSIDE arms (depth 1-3) of parents declared OUTSIDE, before the #if; hierarchical defines that
+    hit constants declared inside arms.  Never in the F55 class unless an arm also declares a parent (rare, on purpose)."""
+    base = rng.shuffle(INTS)[:rng.range(1, 3)] + rng.shuffle(BOOLS)[:rng.range(1, 2)]
+    vals = {}
+    tree = []
+    for n in base:
+        if n in INTS:
+            vals[n] = rng.range(0, 3)
+            tree.append(('K', 0, n, ('i', vals[n])))
+        else:
+            vals[n] = rng.below(2)
+            tree.append(('K', 0, n, ('b', vals[n])))
+    next_id = [1]
+    children = []                      # full names of constants declared inside arms
+
+    def cond():
+        k = rng.weighted([("k", 6), ("q", 4), ("lit", 1), ("and", 2)])
+        ks = [n for n in base if n in INTS]
+        qs = [n for n in base if n in BOOLS]
+        if k == "k":
+            n = rng.choice(ks)
+            return ('B', rng.choice("=#<[>]"), ('v', 0, [n]), ('i', rng.range(0, 3)))
+        if k == "q":
+            n = rng.choice(qs)
+            return ('v', 0, [n]) if rng.chance(0.6) else ('!', ('v', 0, [n]))
+        if k == "lit":
+            return ('b', rng.below(2))
+        return ('B', rng.choice("&|"), ('v', 0, [rng.choice(qs)]), ('B', '=', ('v', 0, [rng.choice(ks)]), ('i', rng.range(0, 3))))
+
+    def arm(parent, d, used):
+        out = []
+        for _ in range(rng.range(1, 3)):
+            k = rng.weighted([("child", 6), ("marker", 3), ("if", 4 if d < 3 else 0), ("lab", 1), ("parent", 1 if rng.chance(0.15) else 0)])
+            if k == "child":
+                free = [c for c in ("c0", "c1") if c not in used]
+                if free:
+                    c = rng.choice(free)
+                    used.add(c)
+                    children.append(parent + "." + c)
+                    out.append(('K', 1, c, ('i', rng.range(0, 9)) if rng.chance(0.7) else ('B', '+', ('v', 0, [rng.choice([n for n in base if n in INTS])]), ('i', rng.range(1, 5)))))
+            elif k == "marker":
+                out.append(('O', next_id[0])); next_id[0] += 1
+            elif k == "lab" and "n0" not in used:
+                used.add("n0")
+                out.append(('L', 1, "n0"))
+            elif k == "parent":
+                out.append(('L', 0, "p%d" % next_id[0])); next_id[0] += 1
+            elif k == "if":
+                out.append(chain(parent, d + 1, used, rng.weighted([(0, 5), (1, 3), (2, 1)])))
+        return out
+
+    def chain(parent, d, used, elifs):
+        before = set(used)
+        u1 = set(before)
+        t = arm(parent, d, u1)
+        used |= u1
+        if elifs > 0:
+            u2 = set(before)
+            f = [chain(parent, d, u2, elifs - 1)]
+            used |= u2
+            return ('I', cond(), t, f, rng.chance(0.85))
+        if rng.chance(0.5):
+            u2 = set(before)
+            f = arm(parent, d, u2)
+            used |= u2
+            return ('I', cond(), t, f, False)
+        return ('I', cond(), t, None, False)
+
+    parents = ["a", "b"][:rng.range(1, 2)]
+    for pn in parents:
+        if rng.chance(0.3):
+            # something (possibly a symbol) in an #if BEFORE the parent: must not matter
+            tree.append(('I', cond(), [('K', 0, "s" + pn, ('i', 7))] if rng.chance(0.6) else [('O', 200 + len(tree))], None, False))
+        tree.append(('L', 0, pn) if rng.chance(0.4) else ('K', 0, pn, ('i', rng.range(0, 9))))
+        used = set()
+        if rng.chance(0.3):
+            used.add("c1")
+            tree.append(('K', 1, "c1", ('i', rng.range(0, 9))))
+        for _ in range(rng.range(1, 2)):
+            tree.append(chain(pn, 1, used, rng.weighted([(0, 5), (1, 3), (2, 1)])))
+        if rng.chance(0.4):
+            tree.append(('O', next_id[0])); next_id[0] += 1
+        if rng.chance(0.5) and children:
+            # a condition that reads a constant declared inside an arm
+            tree.append(('I', ('B', rng.choice("=<>"), ('v', 0, rng.choice(children).split(".")), ('i', rng.range(0, 9))),
+                         [('O', next_id[0])], [('O', next_id[0] + 1)], False))
+            next_id[0] += 2
+    defs = []
+    for _ in range(rng.weighted([(0, 3), (1, 5), (2, 2)])):
+        k = rng.weighted([("child", 8 if children else 0), ("other", 2), ("base", 3), ("last", 1)])
+        if k == "child":
+            name = rng.choice(children)
+        elif k == "other":
+            name = rng.choice(["a", "b"]) + "." + rng.choice(["c0", "c1"])     # often the child of the OTHER parent / undeclared
+        elif k == "base":
+            name = rng.choice(base)
+        else:
+            name = rng.choice(["c0", "c1"])
+        v = rng.choice(DEF_VALUES[3:]) if name not in BOOLS else rng.choice([None, "true", "false"])
+        defs.append(name if v is None else name + "=" + v)
+    return tree, defs
+
+
 def gen_case(rng):
+    if rng.chance(0.25):
+        return gen_inside_case(rng)
     nested = rng.chance(0.3)
     g = Gen(rng, nested, rng.chance(0.12))
     # constants declared unconditionally at top level (before, between or after everything else)
